@@ -18,6 +18,8 @@ EMITS = {
     "move": (lambda g: g.move(x=1.5), "G1 X1.5"),
     "comment": (lambda g: g.comment("é ü ∅"), "; é ü ∅"),
     "feed": (lambda g: g.set_feed_rate(100), "F100"),
+    # longer than the default file buffer: part of the line reaches the disk before flush()
+    "long": (lambda g: g.write("G1 X2 ; " + "ÿ" * 5000), "G1 X2 ; " + "ÿ" * 5000),
 }
 
 
